@@ -1,6 +1,7 @@
 package frame
 
 import (
+	"github.com/go-netty/go-netty"
 	"errors"
 
 	"github.com/go-netty/go-netty/internal/vrt"
@@ -27,6 +28,24 @@ func zzExpectException(pv interface{}, ctx *zzCtx, why string) {
 	vrt.Assert(len(ctx.in) == 0, why+"-nothing-delivered")
 }
 
+// zzFreshAfterReject: a decoder instance that has just rejected its input is handed a new, well-formed frame on a new
+// source (the next connection of a shared codec, or the next read of a channel whose exception handler kept it open):
+// it delivers exactly that frame and consumes exactly its bytes - a rejected frame leaves nothing behind.
+func zzFreshAfterReject(dec netty.InboundHandler, wire, want []byte) {
+	src := &zzSrc{data: wire}
+	ctx := &zzCtx{}
+	pv := vrt.Panics(func() { dec.HandleRead(ctx, src) })
+	vrt.Assert(pv == nil && len(ctx.in) == 1, "fresh-frame-after-a-rejected-one-is-delivered")
+	if pv != nil || len(ctx.in) != 1 {
+		return
+	}
+	got, ok := zzDrain(ctx.in[0], len(want)+4)
+	vrt.Assert(ok, "frame-readable")
+	zzSameBytes(got, want, "fresh-frame-after-a-rejected-one")
+	vrt.Assert(src.off == len(wire), "consumed-exactly-the-frame")
+	vrt.Reach("c08-fresh-after-reject")
+}
+
 func zzRefField(b []byte, w, order int) int64 {
 	var u uint64
 	for i := 0; i < w; i++ {
@@ -44,6 +63,21 @@ func ZZ_C08_LengthField(w, order, off, adj, strip, max, L, frag int) {
 	src, stream := zzAdversary(L, frag)
 	dec := LengthFieldCodec(zzOrder(order), max, off, w, adj, strip)
 	hdr := off + w
+	fresh := func() {
+		bl := 1
+		if adj > 0 {
+			bl = adj + 1
+		}
+		if bl+hdr > max || strip > bl+hdr {
+			return
+		}
+		body := make([]byte, bl)
+		for i := range body {
+			body[i] = byte(0x41 + i)
+		}
+		f := zzRefFrame(w, order, off, bl-adj, body)
+		zzFreshAfterReject(dec, f, f[strip:])
+	}
 	for round := 0; round < 2; round++ {
 		start := src.off
 		rem := L - start
@@ -54,6 +88,7 @@ func ZZ_C08_LengthField(w, order, off, adj, strip, max, L, frag int) {
 		if rem < hdr {
 			vrt.Reach("c08-lf-short-header")
 			zzExpectException(pv, ctx, "short-header")
+			fresh()
 			return
 		}
 		v := zzRefField(stream[start+off:start+hdr], w, order)
@@ -61,11 +96,13 @@ func ZZ_C08_LengthField(w, order, off, adj, strip, max, L, frag int) {
 		if v < 0 || fl < int64(hdr) || fl > int64(max) || int64(strip) > fl {
 			vrt.Reach("c08-lf-invalid-length")
 			zzExpectException(pv, ctx, "invalid-length")
+			fresh()
 			return
 		}
 		if fl > int64(rem) {
 			vrt.Reach("c08-lf-truncated")
 			zzExpectException(pv, ctx, "truncated-frame")
+			fresh()
 			return
 		}
 		vrt.Reach("c08-lf-complete")
@@ -111,16 +148,25 @@ func ZZ_C08_Varint(max, L, frag int) {
 		if !ok {
 			vrt.Reach("c08-varint-bad-header")
 			zzExpectException(pv, ctx, "bad-header")
+			if max >= 2 {
+				zzFreshAfterReject(dec, []byte{1, 0x41}, []byte{0x41})
+			}
 			return
 		}
 		if x > uint64(max) {
 			vrt.Reach("c08-varint-oversized")
 			zzExpectException(pv, ctx, "oversized")
+			if max >= 2 {
+				zzFreshAfterReject(dec, []byte{1, 0x41}, []byte{0x41})
+			}
 			return
 		}
 		if int(x) > rem-k {
 			vrt.Reach("c08-varint-truncated")
 			zzExpectException(pv, ctx, "truncated-frame")
+			if max >= 2 {
+				zzFreshAfterReject(dec, []byte{1, 0x41}, []byte{0x41})
+			}
 			return
 		}
 		vrt.Reach("c08-varint-complete")
@@ -170,6 +216,14 @@ func ZZ_C08_Delimiter(dl, stripD, max, L, frag int) {
 		if e == 0 {
 			vrt.Reach("c08-delim-missing")
 			zzExpectException(pv, ctx, "missing-delimiter")
+			body := []byte{0x41}
+			want := body
+			if stripD == 0 {
+				want = append(append([]byte(nil), body...), delim...)
+			}
+			if 1+dl <= max {
+				zzFreshAfterReject(dec, append(append([]byte(nil), body...), delim...), want)
+			}
 			return
 		}
 		vrt.Reach("c08-delim-complete")
@@ -200,6 +254,11 @@ func ZZ_C08_Fixed(fix, L, frag int) {
 		if rem < fix {
 			vrt.Reach("c08-fixed-truncated")
 			zzExpectException(pv, ctx, "truncated-frame")
+			fresh := make([]byte, fix)
+			for i := range fresh {
+				fresh[i] = byte(0x41 + i)
+			}
+			zzFreshAfterReject(dec, fresh, fresh)
 			return
 		}
 		vrt.Reach("c08-fixed-complete")
